@@ -777,6 +777,179 @@ func checkRederivedFieldReaders(r *Run, sc *Scopes) {
 	}
 	r.Count("R4 EVMConfig calls in query scope", n)
 	r.Floor("R4", "EVMConfig calls in query scope", n, 4)
+
+	// R7: "has this process seen a block yet" decides nothing
+	r.Rule("R7", "FLOW.late-bound-fields-steer-nothing: the process-local fields that the tabled sites re-derive in BeginBlock are nil exactly on a node that has just (re)started; in consensus scope no branch condition compares such a field (or a getter of it) unless one side of the branch only panics (the consistency check of the re-derivation itself) or the two sides differ only in the tabled re-derivation (nothing that takes a Context runs on one side only) — a branch like `if k.eip155ChainID != nil { return }` makes the first block after a restart do work that the nodes which kept running skip")
+	nBr := 0
+	// the field itself, or a getter that returns the field and nothing else
+	isFieldLoad := func(v ssa.Value) bool {
+		u, ok := stripValue(v).(*ssa.UnOp)
+		if !ok || u.Op != token.MUL {
+			return false
+		}
+		sn, f, ok := fieldOfAddr(u.X)
+		return ok && fields[fld{sn, f}]
+	}
+	isGetter := func(fn *ssa.Function) bool {
+		if fn == nil || len(fn.Blocks) != 1 {
+			return false
+		}
+		ret, ok := fn.Blocks[0].Instrs[len(fn.Blocks[0].Instrs)-1].(*ssa.Return)
+		return ok && len(ret.Results) == 1 && isFieldLoad(ret.Results[0])
+	}
+	// only comparisons of the field itself count: values computed from it by other functions (the EVM
+	// configuration, execution results) legitimately steer consensus code once BeginBlock has run
+	var directReads func(v ssa.Value, d int) bool
+	directReads = func(v ssa.Value, d int) bool {
+		if d > 8 {
+			return false
+		}
+		if isFieldLoad(v) {
+			return true
+		}
+		switch x := v.(type) {
+		case *ssa.UnOp:
+			if x.Op == token.NOT {
+				return directReads(x.X, d+1)
+			}
+		case *ssa.BinOp:
+			return directReads(x.X, d+1) || directReads(x.Y, d+1)
+		case *ssa.Phi:
+			for _, e := range x.Edges {
+				if directReads(e, d+1) {
+					return true
+				}
+			}
+		case *ssa.ChangeType:
+			return directReads(x.X, d+1)
+		case *ssa.Convert:
+			return directReads(x.X, d+1)
+		case *ssa.Call:
+			sc := x.Call.StaticCallee()
+			if isGetter(sc) {
+				return true
+			}
+			if sc != nil && sc.Signature.Recv() != nil && isBigNumberPtr(sc.Signature.Recv().Type()) {
+				for _, a := range x.Call.Args {
+					if directReads(a, d+1) {
+						return true
+					}
+				}
+			}
+		}
+		return false
+	}
+	condReads := func(c ssa.Value) bool { return directReads(c, 0) }
+	for _, fn := range sc.S.HaqqFuncs() {
+		if isTestSupport(P, fn) || isGeneratedFile(P.FileOf(fnPos(fn))) {
+			continue
+		}
+		for _, b := range fn.Blocks {
+			ifi, ok := lastIf(b)
+			if !ok || !condReads(ifi.Cond) {
+				continue
+			}
+			nBr++
+			onlyPanics := func(bb *ssa.BasicBlock) bool {
+				seen := map[*ssa.BasicBlock]bool{}
+				var walk func(x *ssa.BasicBlock) bool
+				walk = func(x *ssa.BasicBlock) bool {
+					if seen[x] {
+						return true
+					}
+					seen[x] = true
+					if len(x.Instrs) == 0 {
+						return false
+					}
+					switch x.Instrs[len(x.Instrs)-1].(type) {
+					case *ssa.Panic:
+						return true
+					case *ssa.Return:
+						return false
+					}
+					if len(x.Succs) == 0 {
+						return false
+					}
+					for _, s2 := range x.Succs {
+						// a nested test of the same field on the way to the panic is part of the same consistency check
+						if !walk(s2) {
+							return false
+						}
+					}
+					return true
+				}
+				return walk(bb)
+			}
+			ok2 := false
+			for _, sc2 := range b.Succs {
+				if onlyPanics(sc2) {
+					ok2 = true
+				}
+			}
+			// `a != nil && a.Cmp(b) != 0 → panic`: the first test's false edge skips the panic; accept when the
+			// other successor is another test of the same field whose one side only panics
+			if !ok2 {
+				for _, sc2 := range b.Succs {
+					if i2, isIf := lastIf(sc2); isIf && condReads(i2.Cond) {
+						for _, s3 := range sc2.Succs {
+							if onlyPanics(s3) {
+								ok2 = true
+							}
+						}
+					}
+				}
+			}
+			// the two sides differ only in the tabled re-derivation itself: nothing that takes a Context (state access)
+			// is reachable on one side only
+			how := "the branch only guards a panic (consistency check)"
+			if !ok2 && len(b.Succs) == 2 {
+				reach := func(from *ssa.BasicBlock) map[*ssa.BasicBlock]bool {
+					m := map[*ssa.BasicBlock]bool{}
+					var walk func(x *ssa.BasicBlock)
+					walk = func(x *ssa.BasicBlock) {
+						if m[x] {
+							return
+						}
+						m[x] = true
+						for _, s2 := range x.Succs {
+							walk(s2)
+						}
+					}
+					walk(from)
+					return m
+				}
+				r0, r1 := reach(b.Succs[0]), reach(b.Succs[1])
+				stateful := false
+				for _, bb := range fn.Blocks {
+					if r0[bb] == r1[bb] {
+						continue
+					}
+					for _, in := range bb.Instrs {
+						c, isC := in.(ssa.CallInstruction)
+						if !isC {
+							continue
+						}
+						if sc3 := c.Common().StaticCallee(); sc3 != nil {
+							if _, tabled := processLocalWriteExceptions[fnID(sc3)]; tabled {
+								continue
+							}
+						}
+						for _, a := range c.Common().Args {
+							if namedName(a.Type()) == "Context" {
+								stateful = true
+							}
+						}
+					}
+				}
+				if !stateful {
+					ok2, how = true, "the two sides differ only in the tabled re-derivation (no state access on one side only)"
+				}
+			}
+			r.Check(ok2, "R7", fmt.Sprintf("%s#branch-on-late-bound-field@%s", fnID(fn), b.Comment), P.Pos(instrPos(ifi)), how,
+				"consensus code branches on a keeper field that is nil only until the process has seen its first block: a node restarted at a block boundary takes the other side of this branch than the nodes that kept running, in the same block", sc.S.Chain(fn)...)
+		}
+	}
+	r.Floor("R7", "consensus-scope branches on late-bound fields", nBr, 1)
 }
 
 // mutatesMapParam: indices of the map-typed parameters fn (or its closures) writes into or deletes from.
